@@ -580,6 +580,9 @@ func (c *FCtx) newRef(st *State, base string) *Term {
 }
 
 func (c *FCtx) zeroValue(t types.Type) Value {
+	if c.AbsKeys && (isInternalKeyType(t) || isByteSlice(t)) {
+		return c.nilKey(t)
+	}
 	if _, ok := t.Underlying().(*types.Array); ok {
 		// local array: fresh zeroed backing store is approximated by an unconstrained fresh base
 		a := t.Underlying().(*types.Array)
@@ -703,6 +706,9 @@ func isIntType(t types.Type) bool {
 
 // adapt fixes representation mismatches (e.g. untyped const into bv).
 func (e *Env) adapt(v Value, t types.Type) Value {
+	if tm, ok := v.(*Term); ok && t != nil && e.C.AbsKeys && tm.IsConst() && (isInternalKeyType(t) || isByteSlice(t)) {
+		return e.C.nilKey(t)
+	}
 	if tm, ok := v.(*Term); ok && t != nil {
 		if _, isSlice := t.Underlying().(*types.Slice); isSlice && tm.IsConst() {
 			return e.C.zeroValue(t)
@@ -1098,7 +1104,7 @@ func (e *Env) execGotoLoop(list []ast.Stmt, label string, st *State) []Outcome {
 	if c.Contract != nil {
 		lspec = c.Contract.LabelLoops[label]
 	}
-	invs := c.loopInvariants(e, lspec, -1)
+	invs := c.loopInvariants(e, lspec, -1, list[0].Pos())
 	for _, inv := range invs {
 		c.oblige(st, "inv-init", fmt.Sprintf("inv-init(label %s, %s)", label, inv.label), list[0].Pos(), inv.eval(e, st, entry), inv.text)
 	}
@@ -1299,7 +1305,7 @@ func (e *Env) loopCore(st *State, label string, pos token.Pos, body *ast.BlockSt
 	}
 	entry := st.clone()
 	// 1. invariants hold on entry
-	invs := c.loopInvariants(e, spec, ordinal)
+	invs := c.loopInvariants(e, spec, ordinal, body.Lbrace)
 	for _, inv := range invs {
 		g := inv.eval(e, st, entry)
 		c.oblige(st, "inv-init", fmt.Sprintf("inv-init(loop %d, %s)", ordinal, inv.label), pos, g, inv.text)
@@ -2020,7 +2026,27 @@ func (c *FCtx) mergeValues(conds []*Term, vals []Value) (Value, bool) {
 			rs = append(rs, k.Rank)
 			ns = append(ns, k.Nil)
 		}
-		return &KeyV{Rank: iteChain(conds, rs), Nil: iteChain(conds, ns)}, true
+		var ls []*Term
+		for _, v := range vals {
+			ls = append(ls, v.(*KeyV).Len)
+		}
+		return &KeyV{Rank: iteChain(conds, rs), Nil: iteChain(conds, ns), Len: iteChain(conds, ls)}, true
+	case *IKeyV:
+		var us []Value
+		var nums []*Term
+		for _, v := range vals {
+			k, ok := v.(*IKeyV)
+			if !ok {
+				return nil, false
+			}
+			us = append(us, k.U)
+			nums = append(nums, k.Num)
+		}
+		mu, ok := c.mergeValues(conds, us)
+		if !ok {
+			return nil, false
+		}
+		return &IKeyV{U: mu.(*KeyV), Num: iteChain(conds, nums)}, true
 	case *TupleV:
 		out := &TupleV{}
 		for i := range v0.Vs {
